@@ -70,6 +70,8 @@ def Placed : Schema → Option String → Val → DVal → DVal → Prop
   | .ptr elem zp nn, tag, v, d, out =>
       if isParseZero v then out = d ∧ nn = none
       else ∃ o, out = .ptr (some o) ∧ Placed elem tag v (d.pointee zp) o
+  | .pre ps inner, tag, v, d, out =>
+      ps.accept v = true ∧ ∃ v', ps.run v = (v', none) ∧ Placed inner tag v' d out
   | .slice elem sm, _, v, d, out =>
       match sliceSrc .parse sm v d with
       | .skipped => out = d
@@ -419,6 +421,26 @@ theorem placed_of_clean (env : Env) :
         simp only [hf] at hc ⊢
         refine ⟨_, placedFound_of_clean env fs hp.2 hwf k k fm s hf _ _ _ hc, ?_⟩
         exact DVal.get_set_self _ _ _
+  | .pre ps inner, hp, hw, tag, path, v, d, h => by
+    simp only [Schema.postFree] at hp
+    simp only [Schema.WF] at hw
+    have loc : ∀ v d s, proc env .parse inner tag path v d s =
+        ((proc env .parse inner tag path v d {}).1, s.app (proc env .parse inner tag path v d {}).2) :=
+      fun v d => proc_local env .parse inner hp tag path v d
+    unfold proc at h ⊢
+    simp only [Placed]
+    simp only at h ⊢
+    cases ha : ps.accept v
+    · simp [ha, emit] at h
+    · simp only [ha, ↓reduceIte] at h ⊢
+      rcases hr : ps.run v with ⟨v', e⟩
+      cases e with
+      | none =>
+        simp only [hr] at h ⊢
+        rw [loc] at h ⊢
+        refine ⟨trivial, v', rfl, placed_of_clean env inner hp hw tag path v' d ?_⟩
+        simpa [St.app] using h
+      | some e => simp [hr, emit] at h
 theorem placedFound_of_clean (env : Env) :
     ∀ (fs : Fields), fs.postFree = true → fs.WF → ∀ (key k : String) (fm : FieldMeta) (s : Schema), fs.find key = some (k, fm, s) →
       ∀ (path : List String) (v : Val) (d : DVal),
